@@ -217,6 +217,7 @@ man = {
               'baseline_off_cmd': 'cd /repo && cargo test --workspace --no-fail-fast --offline', 'source_commits': ['570315d'], 'add_only': True},
     'engines': [
         {'name': 'mirsym', 'path': 'mirsym/', 'serves_properties': sorted(CLAIMED), 'kind_free_text': 'symbolic interpreter for rustc MIR (python + z3): path-complete exploration within stated bounds, decision-prefix forking sharded over 16 processes'},
+        {'name': 'kani', 'path': 'kani/', 'serves_properties': ['C08', 'C09'], 'kind_free_text': 'Kani 0.68 / CBMC harness crate with a path dependency on /repo/marwood: re-decides fixnum / float / bignum kernels on the compiled code (driver vlib/kani.py, memory and time caps; a harness that does not finish is reported inconclusive, never as a pass)'},
         {'name': 'replay', 'path': 'replay/', 'serves_properties': sorted(CLAIMED), 'kind_free_text': 'native replay binary (dev + release) linked against /repo/marwood: confirms every counterexample, differential validation of the models'},
     ],
     'checks': checks,
